@@ -14,15 +14,17 @@ import (
 )
 
 type Env struct {
-	m       *Machine
-	termios Tuple // current termios of the fake tty (slots of unix.Termios)
-	nwrites int
+	m           *Machine
+	termios     Tuple // current termios of the fake tty (slots of unix.Termios)
+	termiosInit Tuple
+	nwrites     int
 }
 
 func newEnv(m *Machine) *Env { return &Env{m: m} }
 
 func (e *Env) reset() {
 	e.termios = nil
+	e.termiosInit = nil
 	e.nwrites = 0
 }
 
@@ -164,6 +166,32 @@ func registerEnvIntrinsics(reg func(string, intrinsicFn)) {
 		tt := m.namedType("golang.org/x/sys/unix", "Termios")
 		m.env.termios = m.load(p, tt).(Tuple)
 		return Iface{}, true
+	})
+	reg(zzPath+".SymbolicTermios", func(m *Machine, c *frame, fn *ssa.Function, a []Value) (Value, bool) {
+		tt := m.namedType("golang.org/x/sys/unix", "Termios")
+		l := m.layoutOf(tt)
+		slots := Tuple(m.zeroInto(nil, tt))
+		// Iflag, Oflag, Cflag, Lflag, Line, Cc[..], Ispeed, Ospeed
+		for i, name := range []string{"tio.iflag", "tio.oflag", "tio.cflag", "tio.lflag"} {
+			slots[l.fields[i]] = m.fromTerm(m.fresh(name, 32))
+		}
+		ccOff := l.fields[5]
+		slots[ccOff+6] = m.fromTerm(m.fresh("tio.vmin", 8))  // VMIN = 6
+		slots[ccOff+5] = m.fromTerm(m.fresh("tio.vtime", 8)) // VTIME = 5
+		m.env.termios = slots
+		m.env.termiosInit = append(Tuple(nil), slots...)
+		return nil, true
+	})
+	reg(zzPath+".TermiosRestored", func(m *Machine, c *frame, fn *ssa.Function, a []Value) (Value, bool) {
+		tt := m.namedType("golang.org/x/sys/unix", "Termios")
+		cur, init := m.env.termios, m.env.termiosInit
+		if cur == nil {
+			cur = Tuple(m.zeroInto(nil, tt))
+		}
+		if init == nil {
+			init = Tuple(m.zeroInto(nil, tt))
+		}
+		return m.equalVals(cur, init), true
 	})
 	reg("golang.org/x/sys/unix.IoctlGetWinsize", func(m *Machine, c *frame, fn *ssa.Function, a []Value) (Value, bool) {
 		wt := m.namedType("golang.org/x/sys/unix", "Winsize")
